@@ -269,4 +269,96 @@ theorem specHistory_zip (lang : Lang) (file : LangConfig) (E : Emitter) : ∀ (c
       exact ⟨past, rfl⟩
     · exact ih (c0 :: past) c r h
 
+/-! ## delivery -/
+
+theorem lookup_setKey (o : OptSet) (k : String) (v : OptVal) (k' : String) :
+    (setKey o k v).lookup k' = if k' = k then some v else o.lookup k' := by
+  induction o with
+  | nil => simp [setKey, List.lookup_cons]; split <;> simp_all
+  | cons kv r ih =>
+    obtain ⟨a, b⟩ := kv
+    simp only [setKey]
+    by_cases h : a = k
+    · subst h
+      by_cases h2 : k' = a
+      · simp [h2]
+      · have hb : (k' == a) = false := by simp [h2]
+        simp [List.lookup_cons, h2, hb]
+    · simp only [h, if_false, List.lookup_cons]
+      by_cases h2 : k' = a
+      · subst h2; simp [h]
+      · have hb : (k' == a) = false := by simp [h2]
+        simp [hb, ih]
+
+theorem lookup_update (u : OptSet) : ∀ (d : OptSet) (k : String),
+    (update d u).lookup k = match lastVal u k with
+      | some v => some v
+      | none => d.lookup k := by
+  induction u with
+  | nil => intro d k; simp [update, lastVal]
+  | cons kv r ih =>
+    intro d k
+    obtain ⟨a, b⟩ := kv
+    have hu : update d ((a, b) :: r) = update (setKey d a b) r := by simp [update]
+    rw [hu, ih]
+    simp only [lastVal, List.reverse_cons, List.lookup_append]
+    cases hr : r.reverse.lookup k with
+    | some v => simp
+    | none =>
+      simp only [Option.none_or, lookup_setKey, List.lookup_cons, List.lookup_nil]
+      by_cases h : k = a
+      · simp [h]
+      · have hb : (k == a) = false := by simp [h]
+        simp [h, hb]
+
+theorem lookup_files (k : String) : ∀ (files : List OptSet) (base : OptSet),
+    (files.foldl update base).lookup k = match files.reverse.findSome? (fun f => lastVal f k) with
+      | some v => some v
+      | none => base.lookup k := by
+  intro files
+  induction files with
+  | nil => intro base; simp
+  | cons f r ih =>
+    intro base
+    simp only [List.foldl_cons, ih, List.reverse_cons, List.findSome?_append]
+    cases hr : r.reverse.findSome? (fun f => lastVal f k) with
+    | some v => simp
+    | none =>
+      simp only [Option.none_or, List.findSome?_cons, List.findSome?_nil, lookup_update]
+      cases lastVal f k <;> simp
+
+theorem pending_foldl : ∀ (ovs : List OptSet) (b : Builder),
+    (ovs.foldl Builder.setOverride b).pending = ovs.getLast?.getD b.pending ∧
+    (ovs.foldl Builder.setOverride b).config = b.config := by
+  intro ovs
+  induction ovs with
+  | nil => intro b; simp
+  | cons o r ih =>
+    intro b
+    obtain ⟨h1, h2⟩ := ih (b.setOverride o)
+    rw [List.foldl_cons]
+    refine ⟨?_, by rw [h2]; rfl⟩
+    rw [h1]
+    cases r with
+    | nil => simp [Builder.setOverride]
+    | cons x xs =>
+      cases h : (x :: xs).getLast? with
+      | none => simp at h
+      | some v => simp [List.getLast?_cons_cons, h]
+
+theorem create_snd (lang : Lang) (b : Builder) :
+    (b.create lang).2 = match validate lang b.config.presets (update b.config.options b.pending) with
+      | (o, none) => .ok o
+      | (_, some e) => .error e := by
+  simp only [Builder.create]
+  rcases validate lang b.config.presets (update b.config.options b.pending) with ⟨o, _ | e⟩ <;> rfl
+
+theorem deliver_create (lang : Lang) (file : LangConfig) (d : Delivery) :
+    (((Builder.fresh file).deliver d).create lang).2 = effectiveDelivered lang file d := by
+  obtain ⟨h1, h2⟩ := pending_foldl d.overrides ((Builder.fresh file).addConfigFiles d.files)
+  rw [create_snd]
+  unfold Builder.deliver
+  rw [h1, h2]
+  rfl
+
 end NunavutVerif.Options
